@@ -65,6 +65,18 @@ let parse_bytes (tok : string) : n list =
             done;
             !r
         | _ -> failwith ("bad pattern token " ^ tok))
+    | 'r' -> (
+        match String.split_on_char '.' (String.sub tok 1 (String.length tok - 1)) with
+        | [ l; seed ] ->
+            let l = int_of_string l in
+            let x = ref (int_of_string seed land 0x7fffffff) in
+            let out = Array.make l byte_tab.(0) in
+            for i = 0 to l - 1 do
+              x := (!x * 1103515245 + 12345) land 0x7fffffff;
+              out.(i) <- byte_tab.((!x lsr 16) land 255)
+            done;
+            Array.to_list out
+        | _ -> failwith ("bad random token " ^ tok))
     | _ -> failwith ("bad bytes token " ^ tok)
 
 let split_nonempty c s = List.filter (fun x -> x <> "") (String.split_on_char c s)
@@ -399,9 +411,10 @@ let levels_str (ls : fmeta list list) : string = String.concat "/" (List.map num
 let suite_vfn (line : string) : string =
   match split_nonempty ' ' line with
   | id :: cfg :: func :: a1 :: a2 :: a3 :: toks ->
-      let mfs, d1 =
+      let mfs, d1, d14 =
         match String.split_on_char ':' cfg with
-        | [ m; d ] -> (n_of_string m, d = "1")
+        | [ m; d ] -> (n_of_string m, d = "1", true)
+        | [ m; d; e ] -> (n_of_string m, d = "1", e = "1")
         | _ -> failwith "bad cfg"
       in
       let levels = Array.make 7 [] in
@@ -446,7 +459,7 @@ let suite_vfn (line : string) : string =
             let level = nat_of_int (int_of_string a1) in
             let seed = List.filter (fun x -> x <> "-") (split_nonempty ',' a2) |> List.map n_of_string in
             let base = List.filter (fun x -> x <> "-") (split_nonempty ',' a3) |> List.map parse_bytes in
-            match finalize_inputs d1 mfs v level (files_of v level seed) with
+            match finalize_inputs d1 d14 mfs v level (files_of v level seed) with
             | None -> "panic"
             | Some ci ->
                 let bs = String.concat "" (List.map (fun u -> if is_base_level_for_key v level u then "1" else "0") base) in
